@@ -47,6 +47,8 @@ REQUIRED = {
 REQUIRED.update({"stock-matcher:" + n: 1 for n in ALL_NAMES})
 ASSUMPTIONS = list(c06.ASSUMPTIONS)
 NODE_TO_NAME = {"IsNone": "Is", "MatchesStructureByEquality": "MatchesStructure",
+                "MatchesStructureUpdate": "MatchesStructure", "MatchesStructureFromExample": "MatchesStructure",
+                "MatchesStructureByMatcher": "MatchesStructure",
                 "DirContainsM": "DirContains", "FileContainsM": "FileContains"}
 
 
@@ -227,7 +229,10 @@ def x_assert(ctx, case):
                     if then == "match_before":
                         self.expectThat(1, testtools.matchers.Equals(1))
                     observed["value"] = G.mkvalue(raw, E)
-                    self.expectThat(observed["value"], m, message, verbose)
+                    if case.get("defaults"):
+                        self.expectThat(observed["value"], m)     # message and verbose left to their defaults
+                    else:
+                        self.expectThat(observed["value"], m, message, verbose)
                     # further expectations that hold do not take an earlier failed one back
                     if then == "match_after":
                         self.expectThat(1, testtools.matchers.Equals(1))
@@ -288,12 +293,17 @@ def x_assert(ctx, case):
             # arguments (verbose: matchee and matcher included; a message: the annotation included)
             try:
                 # (the very same matcher and value objects: some texts carry an object's address)
-                assert_that(observed["value"], observed["m"], message, verbose)
+                if case.get("defaults"):
+                    assert_that(observed["value"], observed["m"])
+                else:
+                    assert_that(observed["value"], observed["m"], message, verbose)
                 twin = None
             except MismatchError as e:
                 twin = str(e)
             fe = b"\n".join(v for k, v in sorted(have.items()) if k.startswith("Failed expectation"))
-            ctx.check(twin is not None and twin.encode("utf8", "replace") in fe, "expectThat.reports-what-assertThat-would",
+            # (the detail is a stack trace followed by "MismatchError: " + that text - the suite pins that layout)
+            ctx.check(twin is not None and ("MismatchError: " + twin).encode("utf8", "replace") in fe,
+                      "expectThat.reports-what-assertThat-would",
                       lambda: {"assertThat's text": twin, "Failed expectation": fe.decode("utf8", "replace")[-400:],
                                "verbose": verbose, "message": message, **detail()})
     return not want
@@ -489,4 +499,5 @@ def run(ctx):
                                "message": rng.choice(MESSAGES), "verbose": rng.random() < 0.5,
                                "then": rng.choice([None, None, "match_after", "match_in_cleanup", "match_before"]),
                                "runner": rng.choice([None, None, None, "sync", "async"]),
+                               "defaults": how == "expectThat" and rng.random() < 0.25,
                                "pre": pre, "details": md})
